@@ -170,6 +170,31 @@ def dataIter (a : ANode) (script : List DAAns) : ANode × List SW × List Submit
         let (a', ws, calls, all) := submitLoop true maxSubmitAttempts a items script [] []
         (a', ws, calls, if all then .done else .incomplete)
 
+/-! ### a block committed while a submission body runs
+
+`DataSubmissionLoop` / `HeaderSubmissionLoop` and `AggregationLoop` are different goroutines.  A submission body reads its
+pending list once, at its beginning; a block the aggregation loop commits afterwards — while the items are signed, or while
+the blobs are in flight — is not in that list.  The body then writes only watermark metadata, marks and the DA double; the
+production step writes blocks, state, height and the batch cursor and reads the watermarks (pending limit) as they were. -/
+
+/-- the node after both: the submission's result `a2` (computed on the node before both) with the production step's
+result `n1` (computed on the same node) for everything the submission does not write -/
+def mergeDuring (a2 : ANode) (n1 : Node) (ws2 : List SW) : ANode :=
+  { a2 with n := { n1 with hdrWm := a2.n.hdrWm, dataWm := a2.n.dataWm, store := n1.store.applyAll ws2 } }
+
+/-- a data tick during which a block is committed (after the pending list was read) -/
+def dataIterDuring (c : Cfg) (a : ANode) (script : List DAAns) (resp : SeqResp) (ex : ExecResp) :
+    ANode × List SW × List SubmitCall × IterOut × Outcome :=
+  let r := dataIter a script
+  let p := publish c a.n resp ex
+  (mergeDuring r.1 p.1 r.2.1, p.2.1 ++ r.2.1, r.2.2.1, r.2.2.2, p.2.2)
+
+def headersIterDuring (c : Cfg) (a : ANode) (script : List DAAns) (resp : SeqResp) (ex : ExecResp) :
+    ANode × List SW × List SubmitCall × IterOut × Outcome :=
+  let r := headersIter a script
+  let p := publish c a.n resp ex
+  (mergeDuring r.1 p.1 r.2.1, p.2.1 ++ r.2.1, r.2.2.1, r.2.2.2, p.2.2)
+
 /-- `IsDAIncluded` -/
 def isDAIncluded (a : ANode) (h : Nat) : Option Bool :=
   if a.n.store.height < h then some false
